@@ -76,7 +76,7 @@ func verifC19Storage(k int) {
 // a crash and never a wrong rule.
 func verifC19File(bufLen int) {
 	text := "||" + verifString("l0", 1, "ab") + ".org^\n||b.net^\n"
-	l := &FileRuleList{ID: 1, File: verifFile(text), buffer: make([]byte, bufLen)}
+	l := verifNewFileList(1, verifFile(text), bufLen)
 	s, err := NewRuleStorage([]RuleList{l})
 	verifAssert(err == nil, "c19: storage is built")
 	a := ruleListIdxToStorageIdx(1, 0)
